@@ -384,6 +384,38 @@ fn chunk_run(rep: &mut Report, n: usize) {
 
 fn session_of_length(rng: &mut crate::util::Rng, rep: &mut Report, n: usize) {
     let msgs: Vec<SessMsg> = (0..n).map(|_| random_session_message(rng)).collect();
+    run_session_messages(msgs, rep)
+}
+
+/// Sessions shaped like the protocol's own transfers — request acknowledged, k chunks, the chunk count (right, one too
+/// many, zero), and then MORE chunks without a new request, a poll, chunks again: a data chunk is followed by 30 ms of
+/// silence whatever the bus may have concluded about where a transfer stands.
+fn protocol_shaped_sessions(rep: &mut Report) {
+    let chunk = |i: usize| SessMsg { m: RefMsg::Data { offset: (i * 16) as u16, data: vec![0x3C; 16] }, reply: None, class: "data chunk", data_chunk: true, in_progress_reply: false };
+    let plain = |m: RefMsg, reply: Option<RefMsg>, class: &'static str| SessMsg { m, reply, class, data_chunk: false, in_progress_reply: false };
+    for op in [0usize, 1] {
+        for k in 0..3usize {
+            for count in [k as u16, k as u16 + 1, 0] {
+                let mut msgs = vec![plain(RefMsg::Request(3, op), Some(RefMsg::Ack(3, op)), "request<-plain")];
+                msgs.extend((0..k).map(chunk));
+                msgs.push(plain(RefMsg::Count(count), None, "chunk count"));
+                msgs.push(chunk(k));
+                msgs.push(plain(RefMsg::Query(3), Some(RefMsg::Report(3, if op == 0 { S_CFG_RECV } else { S_PIX_RECV })), "query<-plain"));
+                msgs.push(chunk(0));
+                msgs.push(plain(RefMsg::Count(0), None, "chunk count"));
+                msgs.push(chunk(1));
+                msgs.push(plain(RefMsg::Complete(3), None, "pixels complete"));
+                msgs.push(chunk(2));
+                msgs.push(plain(RefMsg::Hello(3), Some(RefMsg::Report(3, S_UNCONF)), "hello<-plain"));
+                run_session_messages(msgs, rep);
+                rep.count("protocol_shaped_sessions");
+            }
+        }
+    }
+}
+
+fn run_session_messages(msgs: Vec<SessMsg>, rep: &mut Report) {
+    let n = msgs.len();
     let shown = msgs.iter().map(|m| format!("{}{}", m.m.show(), m.reply.as_ref().map(|r| format!("<-{}", r.show())).unwrap_or_default())).collect::<Vec<_>>().join(" ");
     rep.case(Some(fnv(shown.as_bytes())));
     rep.count("sessions");
@@ -581,6 +613,8 @@ pub fn run(ctx: &Ctx) -> Outcome {
             chunk_run(rep, if ctx.quick() { 300 } else { 66_000 });
         } else if i == 3 {
             after_k_replies(rep);
+        } else if i == 4 {
+            protocol_shaped_sessions(rep);
         }
         for _ in 0..n_sessions / shards {
             session(&mut rng, rep);
@@ -607,6 +641,7 @@ pub fn run(ctx: &Ctx) -> Outcome {
         floor("paced exchanges on ports whose write / read blocks for 10, 20, 45 and 120 ms", report.get("stalled_port_trials") >= 8, report.get("stalled_port_trials")),
         floor("a run of data chunks through one bus (300 in the quick tier, 66 000 in the thorough tier)", report.get("chunk_run_chunks") == if ctx.quick() { 300 } else { 66_000 }, report.get("chunk_run_chunks")),
         floor("a data chunk after exactly k replies of one kind, k = 0..66 and around 128 / 256", report.get("chunks_after_k_replies") >= 140, report.get("chunks_after_k_replies")),
+        floor("sessions shaped like transfers (request acknowledged, k chunks, a right / wrong / zero count, then more chunks without a new request)", report.get("protocol_shaped_sessions") == 18, report.get("protocol_shaped_sessions")),
         floor("two sessions of 300 messages through one bus", report.get("long_sessions") == 2, report.get("long_sessions")),
         floor("every unpaced cell measured", report.get("unpaced_send_cells") == n_send_unpaced, report.get("unpaced_send_cells")),
         floor("no measurement errors", !report.notes.keys().any(|k| k.starts_with("measure_error/")), "see notes"),
